@@ -81,6 +81,12 @@ def call_tokens(c):
         pass
     elif op == "raw":
         t += [f"cmd={hx(c['cmd'])}", f"tok={hx(c['tok'])}"]
+    elif op == "stats":
+        t += ["args=" + ("|".join(key_tok(k) for k in c.get("args", ())) or "-")]
+    elif op == "cache_memlimit":
+        t += [f"m={intarg_tok(c['m'])}"]
+    elif op == "shutdown":
+        t += [f"g={int(bool(c.get('g', False)))}"]
     else:
         raise ValueError(op)
     return " ".join(t)
@@ -133,7 +139,73 @@ def invoke(client, c, keys_as=list):
         return client.quit()
     if op == "raw":
         return client.raw_command(c["cmd"], c["tok"])
+    if op == "stats":
+        return client.stats(*c.get("args", ()))
+    if op == "cache_memlimit":
+        return client.cache_memlimit(c["m"])
+    if op == "shutdown":
+        return client.shutdown(c.get("g", False))
     raise ValueError(op)
+
+
+# ---- stats: the Lean model returns the raw dict of `_fetch_cmd` (the type conversion of `Client.stats` is outside the
+# model); both sides are brought to the same form: the converted dict, keys sorted, values rendered without spaces
+
+def stat_val_tok(v):
+    if v is True:
+        return "True"
+    if v is False:
+        return "False"
+    if isinstance(v, int):
+        return f"int:{v}"
+    if isinstance(v, float):
+        return "float:" + repr(v)
+    if isinstance(v, bytes):
+        return "b:" + hx(v)
+    return "r:" + hx(repr(v).encode())
+
+
+def canon_stats_dict(d):
+    return "stats:{" + ";".join(sorted(f"{key_tok(k)}={stat_val_tok(v)}" for k, v in d.items())) + "}"
+
+
+def _parse_key_tok(t):
+    if t.startswith("b:"):
+        return bytes.fromhex(t[2:])
+    if t.startswith("s:"):
+        return "" if t[2:] == "-" else "".join(chr(int(x)) for x in t[2:].split(","))
+    raise ValueError(t)
+
+
+def convert_raw_stats(raw):
+    """the loop of `Client.stats` after `_fetch_cmd`: best-effort conversion by `STAT_TYPES.get(key, int)`"""
+    from pymemcache.client.base import STAT_TYPES
+    out = {}
+    for key, value in raw.items():
+        converter = STAT_TYPES.get(key, int)
+        try:
+            out[key] = converter(value)
+        except Exception:
+            out[key] = value
+    return out
+
+
+def canon_model_stats(tok):
+    """`stats:{<key>=<hex>;…}` as printed by the Lean driver (raw values) -> the form of `canon_stats_dict`"""
+    body = tok[len("stats:{"):-1]
+    raw = {}
+    for item in (body.split(";") if body else []):
+        k, v = item.split("=", 1)
+        raw[_parse_key_tok(k)] = bytes.fromhex(v)
+    return canon_stats_dict(convert_raw_stats(raw))
+
+
+def canon_model_line(line):
+    """rewrite the `res=stats:{…}` token of a driver reply line (no other token is touched)"""
+    if "res=stats:{" not in line:
+        return line
+    toks = line.split(" ")
+    return " ".join(("res=" + canon_model_stats(t[4:])) if t.startswith("res=stats:{") and t.endswith("}") else t for t in toks)
 
 
 def canon_value(op, r):
@@ -154,6 +226,11 @@ def canon_value(op, r):
         return "b:" + hx(r)
     if isinstance(r, tuple) and len(r) == 2 and isinstance(r[0], bytes) and isinstance(r[1], bytes):
         return f"pair:{hx(r[0])}:{hx(r[1])}"
+    if isinstance(r, dict) and op == "stats":
+        try:
+            return canon_stats_dict(r)
+        except Exception:
+            return "stats-malformed:" + repr(r)[:100]
     if isinstance(r, dict):
         if op == "gets_many":
             try:
